@@ -53,7 +53,8 @@ SVCS = ['blockfrost', 'ogmios_v5', 'ogmios_v6', 'kupo', 'cli']
 COQ_SVC = {'blockfrost': 'Blockfrost', 'ogmios_v5': 'OgmiosV5', 'ogmios_v6': 'OgmiosV6', 'kupo': 'Kupo', 'cli': 'Cli'}
 REGION = 'script_unsupported'
 
-HEADER = '''From Coq Require Import NArith ZArith Ascii String List Bool.
+HEADER0 = '''From Coq Require Import NArith ZArith Ascii String List Bool.
+From Coq Require Import Init.Byte.
 From PyC Require Import Base Cbor Dict Value Json Adapters AdaptersOracle.
 Import ListNotations.
 Open Scope string_scope.
@@ -96,6 +97,8 @@ def bech32_bytes(text):
 
 
 ADDR_BYTES = {a: bech32_bytes(a).hex() for a in ADDRESSES}
+HEADER = HEADER0 + 'Definition addr_pool : list string := ' + clist([cstr(a) for a in ADDRESSES]) + '.\n' \
+    + 'Definition addr_at (k : nat) : string := nth k addr_pool "".\n'
 
 # ---------------------------------------------------------------- generator
 NAMES = [b'', b'', b'\x00', b'a', b'lovelace', b'6c6f76656c616365', b'.', b'#', b'ada', b'dead', b'DEADBEEF', b'00',
@@ -231,24 +234,21 @@ def gen_utxo(rng, svc, script_kind):
         pd = gen_pdata(rng, 3 if rng.random() < 0.3 else 2)
         raw = pdata_cbor(pd)
         datum = ['inline', hashlib.blake2b(raw, digest_size=32).hexdigest(), raw.hex(), pd]
-    script, sh, wrapped, hashes = None, '', False, []
-    if script_kind == 'plutus':
-        vers = [1, 2] if svc == 'ogmios_v5' else [1, 2, 3]
-        if svc == 'cli' and rng.random() < 0.85:
-            vers = [1, 2]
-        ver = rng.choice(vers)
-        body = rbytes(rng, rng.choice([1, 14, 23, 24, 60, 255, 256, 300]))
+    script, sh, wrapped, digests = None, '', False, ['', '']
+    if script_kind in ('plutus', 'plutus_v3'):
+        vers = [1, 2] if svc in ('ogmios_v5', 'cli') else [1, 2, 3]
+        ver = 3 if script_kind == 'plutus_v3' else rng.choice(vers)
+        body = rbytes(rng, rng.choice([1, 14, 23, 24, 24, 60, 60, 255, 256]) if rng.random() < 0.3 else rng.randint(1, 40))
         script = ['plutus', ver, body.hex()]
         wrapped = rng.random() < 0.4
         wrappedb = cbor_head(2, len(body)) + body
-        for pre in (bytes([ver]) + body, bytes([ver]) + wrappedb):
-            hashes.append([pre.hex(), hashlib.blake2b(pre, digest_size=28).hexdigest()])
-        sh = hashes[0][1]
+        digests = [hashlib.blake2b(bytes([ver]) + b, digest_size=28).hexdigest() for b in (body, wrappedb)]
+        sh = digests[0]
     elif script_kind == 'native':
         script = ['native', gen_native(rng, 2)]
         sh = rbytes(rng, 28).hex()
     return dict(txid=rbytes(rng, 32).hex(), index=rng.choice(INDEX), lovelace=rng.choice(LOVELACE), assets=assets, flat=flat,
-                datum=datum, script=script, script_hash=sh, wrapped=wrapped), hashes
+                datum=datum, script=script, script_hash=sh, wrapped=wrapped, digests=digests)
 
 
 def supported(svc, script):
@@ -260,36 +260,23 @@ def supported(svc, script):
 
 
 def gen_case(rng, svc, region=False):
-    nu = rng.choice([1, 1, 1, 2, 2, 3])
-    us, hashes = [], []
+    nu = rng.choice([1, 1, 1, 1, 2, 2, 3])
+    us = []
     for k in range(nu):
         r = rng.random()
         kind = None if r < 0.55 else 'plutus'
         if svc == 'blockfrost' and r > 0.85:
             kind = 'native'
-        if svc == 'cli' and kind == 'plutus':
-            pass
-        u, hs = gen_utxo(rng, svc, kind)
-        while not supported(svc, u['script']):
-            u, hs = gen_utxo(rng, svc, kind)
-        us.append(u); hashes += hs
+        us.append(gen_utxo(rng, svc, kind))
     if region:                                     # one UTxO of the response carries an unsupported reference script
-        while True:
-            u, hs = gen_utxo(rng, svc, 'plutus' if svc == 'cli' and rng.random() < 0.5 else 'native')
-            if svc == 'cli' and u['script'][0] == 'plutus':
-                u['script'][1] = 3
-                body = bytes.fromhex(u['script'][2])
-                hs = []
-            if not supported(svc, u['script']):
-                break
-        us[rng.randrange(len(us))] = u
-        hashes += hs
+        kind = 'plutus_v3' if svc == 'cli' and rng.random() < 0.5 else 'native'
+        us[rng.randrange(len(us))] = gen_utxo(rng, svc, kind)
     ids = set()
     for u in us:                                   # distinct transaction references within one response
         while (u['txid'], u['index']) in ids:
             u['index'] += 1
         ids.add((u['txid'], u['index']))
-    return dict(svc=svc, addr=rng.choice(ADDRESSES), utxos=us, hashes=hashes)
+    return dict(svc=svc, addr=rng.choice(ADDRESSES), utxos=us)
 
 
 def in_region(case):
@@ -298,7 +285,12 @@ def in_region(case):
 
 # ---------------------------------------------------------------- Coq literals
 def hxs(h):
-    return f'(hx "{h}")'
+    """bytes literal as Init.Byte constructors (string and number notations cost ~50 us per character in coqc)"""
+    return '[' + ';'.join('x' + h[i:i + 2] for i in range(0, len(h), 2)) + ']'
+
+
+def r_addr(a):
+    return f'(addr_at {ADDRESSES.index(a)})' if a in ADDRESSES else cstr(a)
 
 
 def r_native(s):
@@ -351,8 +343,8 @@ def r_utxo(u):
 
 
 def r_case(c):
-    hs = clist([cpair(hxs(a), hxs(b)) for a, b in c['hashes']])
-    return f'({COQ_SVC[c["svc"]]}, {cstr(c["addr"])}, {clist([r_utxo(u) for u in c["utxos"]])}, {hs})'
+    hs = clist([cpair(hxs(u['digests'][0]), hxs(u['digests'][1])) for u in c['utxos']])
+    return f'({COQ_SVC[c["svc"]]}, {r_addr(c["addr"])}, {clist([r_utxo(u) for u in c["utxos"]])}, {hs})'
 
 
 class Malformed(Exception):
@@ -426,7 +418,7 @@ def r_impl_utxo(o):
     else:
         raise Malformed(f'unexpected script {s!r}')
     dh = 'None' if o['datum_hash'] is None else f'(Some {_hex(o["datum_hash"])})'
-    return (f'(mkA {_hex(o["txid"])} {cz(_int(o["index"]))} {cstr(o["addr"])} {cz(_int(o["lovelace"]))} {assets} '
+    return (f'(mkA {_hex(o["txid"])} {cz(_int(o["index"]))} {r_addr(o["addr"])} {cz(_int(o["lovelace"]))} {assets} '
             f'{dh} {datum} {script})')
 
 
@@ -437,87 +429,53 @@ def r_impl(res):
 
 
 # ---------------------------------------------------------------- pass 1: Coq renders the documents
-def parse_coq_strings(out):
-    """Parse the printed value of type list (list (string * string)) into Python lists."""
-    i = out.index('= ') + 2
-    toks = []
-    n = len(out)
-    while i < n:
-        ch = out[i]
-        if ch == '"':
-            j = i + 1
-            buf = []
-            while True:
-                if out[j] == '"':
-                    if j + 1 < n and out[j + 1] == '"':
-                        buf.append('"'); j += 2
-                        continue
-                    break
-                buf.append(out[j]); j += 1
-            toks.append(('s', ''.join(buf)))
-            i = j + 1
-        elif ch in '[]();,':
-            toks.append((ch, None)); i += 1
-        elif ch == ':' and toks and toks[-1][0] == ']' and depth_zero(toks):
-            break
+_TOK = re.compile(r'"(""|.)"%byte|(\[)|(\])')
+
+
+def parse_coq_bytes(out):
+    """Parse the printed value of type list (list (list byte)) (printed as "c"%byte) into lists of str."""
+    start = out.index('= ') + 2
+    end = out.rindex(': list (list')
+    cases, docs, cur, depth = [], None, None, 0
+    for m in _TOK.finditer(out, start, end):
+        if m.group(1) is not None:
+            cur.append(ord(m.group(1)[0]))
+        elif m.group(2):
+            depth += 1
+            if depth == 2:
+                docs = []
+            elif depth == 3:
+                cur = bytearray()
         else:
-            i += 1
-    pos = 0
-
-    def value():
-        nonlocal pos
-        t = toks[pos]
-        if t[0] == 's':
-            pos += 1
-            return t[1]
-        if t[0] == '[':
-            pos += 1
-            items = []
-            while toks[pos][0] != ']':
-                items.append(value())
-                if toks[pos][0] == ';':
-                    pos += 1
-            pos += 1
-            return items
-        if t[0] == '(':
-            pos += 1
-            a = value()
-            assert toks[pos][0] == ','
-            pos += 1
-            b = value()
-            assert toks[pos][0] == ')'
-            pos += 1
-            return (a, b)
-        raise ValueError(f'unexpected token {t}')
-    return value()
+            if depth == 3:
+                docs.append(cur.decode('ascii'))
+            elif depth == 2:
+                cases.append(docs)
+            depth -= 1
+    assert depth == 0
+    return cases
 
 
-def depth_zero(toks):
-    d = 0
-    for t, _ in toks:
-        if t == '[':
-            d += 1
-        elif t == ']':
-            d -= 1
-    return d == 0
+SHARD = 60
 
 
-def coq_render(cases, shard=100):
+def coq_render(cases):
+    """render_k.v: Definition cases (compiled to render_k.vo, re-used by pass 2) + the documents of every case."""
     d = os.path.join(C.WORK, PID)
     os.makedirs(d, exist_ok=True)
     for fn in os.listdir(d):
-        if fn.startswith('render_'):
+        if fn.startswith(('render_', '.render_')):
             os.remove(os.path.join(d, fn))
-    procs = []
-    for k in range(0, len(cases), shard):
-        part = cases[k:k + shard]
-        p = os.path.join(d, f'render_{k // shard}.v')
+    pending = []
+    for k in range(0, len(cases), SHARD):
+        part = cases[k:k + SHARD]
+        p = os.path.join(d, f'render_{k // SHARD}.v')
         with open(p, 'w') as f:
             f.write(HEADER + 'Definition cases : list case :=\n' + clist([r_case(c) for c in part]) + '.\n'
                     'Eval vm_compute in (map case_docs cases).\n')
-        procs.append((k, len(part), p))
+        pending.append((k, len(part), p))
     out_docs = [None] * len(cases)
-    running, pending = [], list(procs)
+    running = []
     while pending or running:
         while pending and len(running) < C.NPROC:
             k, n, p = pending.pop(0)
@@ -527,19 +485,28 @@ def coq_render(cases, shard=100):
         out, err = pr.communicate()
         if pr.returncode != 0:
             raise RuntimeError('render pass failed: ' + (out + err)[-2000:])
-        docs = parse_coq_strings(out)
-        assert len(docs) == n
+        docs = parse_coq_bytes(out)
+        assert len(docs) == n, (len(docs), n)
         for j, dl in enumerate(docs):
-            out_docs[k + j] = {key: text for key, text in dl}
+            assert len(dl) % 2 == 0
+            out_docs[k + j] = {dl[i]: dl[i + 1] for i in range(0, len(dl), 2)}
     return out_docs
 
 
 # ---------------------------------------------------------------- pass 2
-def render_pass2(cases, results):
-    items = [f'({i}%nat, ({r_case(c)}, {r_impl(r)}))' for i, (c, r) in enumerate(zip(cases, results))]
-    body = 'Definition cases : list (nat * (case * result (list autxo))) :=\n' + clist(items) + '.\n'
-    body += 'Eval vm_compute in (map fst (filter (fun c => negb (c20_corr (fst (snd c)) (snd (snd c)))) cases)).\n'
-    body += 'Eval vm_compute in (map fst (filter (fun c => negb (c20_oracle (fst (snd c)) (snd (snd c)))) cases)).\n'
+def render_pass2(shard_no, results):
+    """cases_k.v: the adapter outputs of shard k, zipped with the cases of render_k.vo."""
+    items = []
+    for r in results:
+        try:
+            items.append(r_impl(r))
+        except Malformed:
+            items.append('(Err "MALFORMED-OUTPUT")')
+    body = f'Require Import render_{shard_no}.\n'
+    body += 'Definition impl : list (result (list autxo)) :=\n' + clist(items) + '.\n'
+    body += 'Definition zipped := combine (seq 0 (length cases)) (combine cases impl).\n'
+    body += 'Eval vm_compute in (map fst (filter (fun c => negb (c20_corr (fst (snd c)) (snd (snd c)))) zipped)).\n'
+    body += 'Eval vm_compute in (map fst (filter (fun c => negb (c20_oracle (fst (snd c)) (snd (snd c)))) zipped)).\n'
     return body
 
 
@@ -550,31 +517,21 @@ def python_side_fail(case, res):
     return any(o.get('addr_bytes') != ADDR_BYTES[case['addr']] for o in res['ok'])
 
 
-def evaluate(cases, results, shard=100):
+def evaluate(cases, results):
     mism, ofail, errs = set(), set(), []
-    good = []
     for i, (c, r) in enumerate(zip(cases, results)):
         if 'driver_error' in r:
             errs.append(r['driver_error'] + '\n' + r.get('tb', ''))
-            continue
-        try:
-            r_impl(r)
-        except Malformed:
-            mism.add(i); ofail.add(i)             # the adapter returned something that is not a UTxO of the stated types
-            continue
-        if python_side_fail(c, r):
+        elif python_side_fail(c, r):
             ofail.add(i)
-        good.append((i, c, r))
-    shards, maps = [], []
-    for k in range(0, len(good), shard):
-        part = good[k:k + shard]
-        shards.append(render_pass2([c for _, c, _ in part], [r for _, _, r in part]))
-        maps.append([i for i, _, _ in part])
-    for (ok, lists, log), mp in zip(C.run_cases(PID, shards, HEADER), maps):
+    if errs:
+        return mism, ofail, errs
+    shards = [render_pass2(k // SHARD, results[k:k + SHARD]) for k in range(0, len(cases), SHARD)]
+    for sn, (ok, lists, log) in enumerate(C.run_cases(PID, shards, HEADER)):
         if not ok or len(lists) != 2:
             errs.append(log[-1500:])
             continue
-        mism.update(mp[j] for j in lists[0]); ofail.update(mp[j] for j in lists[1])
+        mism.update(sn * SHARD + j for j in lists[0]); ofail.update(sn * SHARD + j for j in lists[1])
     return mism, ofail, errs
 
 
